@@ -38,7 +38,13 @@ JSON_STRUCT_FAULTS = ["value_text", "value_text", "value_text", "key_delete", "k
 XSI_TYPES = ["nosuchtype", "xs:nosuch", "item", "dog", "xs:int", "xs:QName", "xs:date", "xs:hexBinary", "xs:base64Binary", "xs:boolean", "xs:duration", "xs:dateTime", "xs:gYear",
              "xs:decimal", "xs:float", "xs:NMTOKENS", "xs:anyURI", "xs:NOTATION", "xs:time", "xs:unsignedByte", "xs:anyType", "xs:anySimpleType", "xs:string", "xs:language", "xs:IDREFS"]
 JUNK_TEXT = ["1E+600000000", "1E+999999999999", "-1E-600000000", "9" * 5000, "1" + "0" * 4000 + ".5", "p:", ":x", "xs:", "xml:lang", "99999999-01-01", "2020-01-01+14:00", "2020-01-01-14:01", "-2020-01-01", "2020-01-01T24:00:00", "2020-01-01T23:59:60", "P1Y-2M", "1e-400", "0" * 400, "-", "+", "-", "1_000", "0x1", "Infinity", "nan", "1e400", " 5 ", "TRUE", "true ", "-P", "P1Y2M3DT", "PT", "2020-01-01T00:00:00+15:00", "0000-01-01", "2020-02-30", "12:00:00.1234567890123", "--02-30", "-0", ".", "1.", "1e", "٣", "٣.٥",
-             "", " ", "abc", "-1", "1e999", "NaN", "2020-13-45", "true1", "99999999999999999999999999", "0x10", "p:undeclared", "{", "{urn:x}y", "١٢٣", "1 2 3", "--", "P", "24:00:00", "x" * 300, "\t\n", "1.5.5", "+", "é"]
+             "", " ", "abc", "-1", "1e999", "NaN", "2020-13-45", "true1", "99999999999999999999999999", "0x10", "p:undeclared", "{", "{urn:x}y", "١٢٣", "1 2 3", "--", "P", "24:00:00", "x" * 300, "\t\n", "1.5.5", "+", "é",
+             # near-valid lexical forms: one detail off a legal value of some XSD datatype
+             "0001-01-01", "9999-12-31T23:59:59.999999Z", "10000-01-01", "24:00:00.1", "24:00:01", "PT0.5S", "P0.5Y", "P1W", "-P1D", "PT1M", "P1Y", "T12:00:00", "12:00",
+             "2020-01-01Z", "2020-01-01T00:00:00", "2020-01-01T12:00:00+00:00:00", "2020-01-01T12:00:00z", "2020-1-1", "---15", "---32", "--12", "--13", "2020", "2020-12", "02020-01-01",
+             "9223372036854775807", "9223372036854775808", "-9223372036854775809", "18446744073709551616", "\u22121", "1,5", "1 000", "True", "False", "yes", "0 ", "1\u00a0", "\u20031",
+             "aGVsbG8", "aGVs bG8=", "aGVsbG8==", "aGVsbG8=\n", "=aGVsbG8", "ZZ", "abc", "0xZZ", "AbCd ", "1e5", "1E5", "1.0", "+1", "INF", "-INF", "+INF", "1d", "1f", "1L", "0b1", "1__0", "0o7",
+             "ns0:x", "xs:string", "xsd:int", "{}x", "{urn:x}", "a b", "a:b:c", "xml:x", "xmlns:x", "\ud7ff", "\ufffd", "\U0001f600", "&", "<", "]]>"]
 JUNK_JSON = [{"qname": "a", "type": None, "value": {"qname": "b", "type": None, "value": 1}}, {"qname": "a", "type": "{urn:x}dog", "value": [1]}, [None, None], {"": 1}, [{"": {}}], 1e308 * 10, -0.0,
              None, True, 0, -1, 1.5, 1e400, "", "abc", [], [[]], [1, [2]], {}, {"a": 1}, {"qname": "q", "type": None, "value": 1}, {"qname": "q", "text": None, "tail": None, "children": [], "attributes": {}}, [None], "9" * 40, {"value": {}}]
 
